@@ -7,7 +7,7 @@
 (* 512-byte blocks in the header area followed by a data area.                 *)
 (* members[i] = [visor, dir, size (bytes class), inline, slot]:                 *)
 (*    inline: data follows the header; slot: rank of the data in the data area *)
-EXTENDS Common, TLC
+EXTENDS Common, TLC, Json, IOUtils
 
 CONSTANTS MaxM, Sizes
 VARIABLES members, cursor, listed, phase
@@ -47,6 +47,17 @@ Step == /\ phase = "iter"
         /\ UNCHANGED members
 NoNext == FALSE /\ UNCHANGED vars
 Spec == Init /\ [][Step]_vars
+
+\* ---- trace validation: listings recorded from the real reader on random larger archives ----
+\* run = [tid, members: [visor, dir, size, inline, slot], listed: [[index, header_offset_bytes], ...]]
+Runs == ndJsonDeserialize(IOEnv.TRACE_FILE)
+RunOK(r) == /\ Len(r.listed) = Len(r.members)
+            /\ \A i \in 1..Len(r.listed) : r.listed[i][1] = i /\ r.listed[i][2] = 512 * HdrBlock(r.members, i)
+TInit == members = <<>> /\ cursor = 1 /\ listed = <<>> /\ phase = "trace"
+TStep == /\ phase = "trace" /\ cursor \in 1..Len(Runs)
+         /\ IF RunOK(Runs[cursor]) THEN PrintT(<<"ACCEPT", Runs[cursor].tid>>) ELSE PrintT(<<"REJECT", Runs[cursor].tid, 1, "listing">>)
+         /\ cursor' = cursor + 1 /\ UNCHANGED <<members, listed, phase>>
+TraceSpec == TInit /\ [][TStep]_vars
 
 NeverLost == phase # "lost"
 AllListed == phase = "done" => listed = [i \in 1..Len(members) |-> i]
